@@ -11,6 +11,7 @@ import BBProofs.Ops
 import BBProofs.RefPolicy
 import BBProofs.Exact
 import BBProofs.GenEq
+import BBProofs.GenEq2
 
 namespace BB
 
@@ -128,5 +129,41 @@ theorem C02_code_centroid (expf : Rat → Rat) (w : W) (ls : List Nat) (n : Nat)
     (hk : ∀ k ∈ ls, k ≤ n) (hn : n < 2 ^ 53) :
     BBGen.centroid_from_sum expf (PV.arr w ls) (PV.int n) (PV.bool true)
       = PV.arr .u8 (pack (centroidFromSum ls n)) := gen_centroid_packed expf w ls n hk hn
+
+
+/-! ### the sub-cluster object itself (`_BFSubcluster`, translated from `bitbirch.py` on this run)
+
+`stateOf c child` is the object's four `__slots__` for the model cluster `c`: `_buffer` = the sums followed by the
+count in ONE unsigned array of width `c.w`, `packed_centroid`, `child`, `mol_indices`. -/
+
+/-- code: `self.update(sub)` on exact summaries yields the object of an exact summary of the union: count, sums,
+centroid, member list, and the buffer is held in the narrowest width for the new count — whatever widths the two
+buffers had before (255 → 256, 65 535 → 65 536, …) -/
+theorem C02_code_update (expf : Rat → Rat) (D : Nat → Row) (c s : Clu) (child scent schild : PV)
+    (hc : Exact D c) (hs : Exact D s) (hlen : c.ls.length = s.ls.length) (hn : c.n + s.n < 2 ^ 53) :
+    ∃ c', BBGen._BFSubcluster_update expf (bufOf c) (PV.arr .u8 (pack c.cent)) child (PV.arr .big c.ids)
+            (bufOf s) scent schild (PV.arr .big s.ids) = stateOf c' child
+      ∧ Exact D c' ∧ c'.ids = c.ids ++ s.ids ∧ c'.n = c.n + s.n ∧ c'.ls = addLs c.ls s.ls ∧ c'.w = minSafe (c.n + s.n) := by
+  refine ⟨c.update s, gen_update expf c s child scent schild (cluOk_of_exact D c hc (by omega))
+    (cluOk_of_exact D s hs (by omega)) hlen hn, exact_update D c s hc hs, rfl, ?_, ?_, rfl⟩
+  · exact (update_unbounded D c s hc hs).2
+  · exact (update_unbounded D c s hc hs).1
+
+/-- code: `self.merge_subcluster(nominee, threshold, merge_accept_fn)` with the object `get_merge_accept_fn` builds:
+returns `True` and becomes the object of the exact summary of the union iff the criterion accepts the candidate
+(formed in the narrowest width for the new count); otherwise returns `False` and is unchanged -/
+theorem C02_code_merge (expf : Rat → Rat) (D : Nat → Row) (m : MergeFn) (thr : Rat) (c s : Clu)
+    (child scent schild : PV) (hc : Exact D c) (hs : Exact D s) (hlen : c.ls.length = s.ls.length)
+    (hn : c.n + s.n < 2 ^ 53) (hnew : SumOk (c.mergedSummary s)) (hold : SumOk c.summary) (hO : 1 ≤ c.n) :
+    ∃ c', BBGen._BFSubcluster_merge_subcluster expf (bufOf c) (PV.arr .u8 (pack c.cent)) child (PV.arr .big c.ids)
+            (bufOf s) scent schild (PV.arr .big s.ids) (PV.flt (some thr)) (objOf expf m)
+          = PV.bool (accept m (tabOf expf) thr (c.mergedSummary s) c.summary s.summary) :: stateOf c' child
+      ∧ Exact D c'
+      ∧ c'.ids = (if accept m (tabOf expf) thr (c.mergedSummary s) c.summary s.summary then c.ids ++ s.ids else c.ids) := by
+  have h := gen_merge_subcluster expf m thr c s child scent schild (cluOk_of_exact D c hc (by omega))
+    (cluOk_of_exact D s hs (by omega)) hlen hn hnew hold hO
+  by_cases ha : accept m (tabOf expf) thr (c.mergedSummary s) c.summary s.summary = true
+  · exact ⟨c.merge s, by rw [h]; simp [ha], exact_merge D c s hc hs, by simp [ha, Clu.merge]⟩
+  · exact ⟨c, by rw [h]; simp [ha], hc, by simp [ha]⟩
 
 end BB
